@@ -34,9 +34,10 @@ THEOREMS = ["JanetModel.Props.C10." + t for t in (
     "witness_fiber_frame0", "witness_function_env_count", "witness_def_env_index", "peg_verify_sound_of_consistent")] + [
     "JanetModel.Bytecode.verify_sound_generic", "JanetModel.PegVerify.peg_verify_sound_generic",
     "JanetModel.Props.C10.unmarshal_total_inbounds_of_sites_ok", "JanetModel.Props.C10.unmarshal_terminates_of_sites_ok",
-    "JanetModel.Props.C10.witness_missing_check_over_reads"]
+    "JanetModel.Props.C10.witness_missing_check_over_reads", "JanetModel.Props.C10.witness_uncounted_env_recursion",
+    "JanetModel.Unmarsh.Bytes.unmarshal_total_inbounds_generic", "JanetModel.Unmarsh.Bytes.unmarshal_terminates_generic"]
 GUARD_OBLIGATIONS = ["JanetModel.Bytecode.GuardObligations.vm_value_guards", "JanetModel.Bytecode.GuardObligations.vm_value_guards_nonempty"]
-BYTES_OBLIGATIONS = ["JanetModel.Unmarsh.BytesObligations." + t for t in ("sites_ok", "refs_checked", "unmarshal_total_inbounds", "unmarshal_terminates", "peg_size_checked", "asm_ok_only_after_verify")] + [
+BYTES_OBLIGATIONS = ["JanetModel.Unmarsh.BytesObligations." + t for t in ("sites_ok", "refs_checked", "depths_ok", "unmarshal_total_inbounds", "unmarshal_terminates", "peg_size_checked", "asm_ok_only_after_verify")] + [
     "JanetModel.Unmarsh.PegSize.peg_alloc_covers_writes", "JanetModel.Unmarsh.PegSize.witness_peg_size_wraps"]
 PEG_OBLIGATIONS = ["JanetModel.PegVerify.Obligations." + t for t in ("peg_tables_consistent", "peg_verify_sound")]
 IMAGE_OBLIGATIONS = ["JanetModel.Unmarsh.Obligations." + t for t in ("image_checks_present", "fiber_image_wf", "function_image_wf", "env_untrusted_checked")]
@@ -44,6 +45,8 @@ IMAGE_OBLIGATIONS = ["JanetModel.Unmarsh.Obligations." + t for t in ("image_chec
 WITNESS_CHECK = {"fiber_frame0_resumable": "frame0", "function_env_count_mismatch": "fnEnvCount", "def_environment_negative": "defEnvIndex"}
 
 HDIR = os.path.join(VERIF, "harness", "C10")
+# nesting depths tried for every recursive edge (harness/C10/imagegen.py deep_edges): around guard/3, guard/2, guard
+DEEP_DEPTHS = [1, 2, 255, 256, 340, 341, 342, 343, 510, 511, 512, 513, 1022, 1023, 1024, 1025, 1026, 2047, 3000]
 # ASan + the pointer/bounds/alignment part of UBSan.  Arithmetic undefined behaviour of number handling (shifts, signed
 # overflow, float casts) is C14's subject; an overflow that lets a bound check pass still ends in an ASan report here.
 VARIANT = "asan_mem"
@@ -209,6 +212,18 @@ def gen_inputs(ctx, ig, base, ops, lb, quick, pegrows=None):
         add("valid", lab, b)
         for k in range(len(b)):
             add("trunc", "%s[:%d]" % (lab, k), b[:k])
+    # 1b. deep nesting through EVERY recursive edge of the unmarshaller (array / tuple / struct / table elements and prototypes,
+    #     funcdef constants and sub-defs, function environments (values and on-stack fiber), fiber frames / slots / env /
+    #     child / last value, channel items, PEG constants): depths around the points where the depth counter reaches
+    #     JANET_RECURSION_GUARD (1, 2 or 3 counted calls per nesting level), random depths, and depths far beyond the guard
+    #     (an edge that does not count overflows the C stack there)
+    edges = ig.deep_edges(lb, ops, pegrows.ops.get("RULE_CONSTANT") if pegrows is not None else None)
+    for e in edges:
+        per = max(1, len(e[2]) + len(e[4]))
+        big = [20000, max(30000, min(100000, 1200000 // per))] + ([250000] if not quick else [])
+        ds = DEEP_DEPTHS + [rng.range(1, 1100) for _ in range(4)] + [rng.range(1100, 6000) for _ in range(2)] + big
+        for n in sorted(set(ds)):
+            add("deep", "%s*%d" % (e[0], n), ig.deep_image(e, n))
     # 2. boundary-value single byte substitution at every offset
     bvals = ig.BOUNDARY_BYTES
     for lab, b in base:
@@ -254,6 +269,14 @@ def gen_inputs(ctx, ig, base, ops, lb, quick, pegrows=None):
         except Exception:
             continue
         cases.append(("mfiber", "+".join(labels), "u " + img.hex(), mline))
+    # 4b'. function images inside the domain of the Lean model `acceptFunction` (header count, environments_length and the
+    #      environment indices of the def and a sub-def are the only varying fields); the model line travels with the case
+    n_mfn = 3000 if quick else 40000
+    for i in range(n_mfn):
+        m = ig.gen_model_function(rng, ops)
+        labels = [ig.mutate_model_function(rng, m) for _ in range(rng.choice([0, 1, 1, 1, 2]))]
+        img, mline = ig.render_model_function(lb, ops, m)
+        cases.append(("mfunc", "+".join(labels) or "wellformed", "u " + img.hex(), mline))
     # 4c. PEG images: valid programs built from the extracted rows, then structure-aware mutation (rule operands redirected
     #     into the middle of other instructions / into literal payloads spelling an instruction, constant indices at the
     #     bounds, missing / extra words, empty program); the model line (pegverify) travels with the case
@@ -368,6 +391,53 @@ def witness_images(ig, lb, ops):
                bytecode=[bn["JOP_CLOSURE"] | 0 << 8 | 0 << 16, bn["JOP_RETURN"] | 0 << 8], defs=[sub])
     w["def_environment_negative"] = enc.val(("fn", dict(**{"def": top}, envs=[])))
     return w
+
+
+def function_correspondence(ctx, exe, cases, outs, broken, img_broken):
+    """accept / reject of the Lean function-image model vs the real unmarshaller on the modelled function images: `inv` = every
+    check present (= the conclusion of function_image_wf_of_all_checks), `src` = the checks extracted from the current source"""
+    mf = [(i, c) for i, c in enumerate(cases) if c[0] == "mfunc" and c[3] is not None and outs[i] is not None]
+    st = {"compared": 0, "both_accept": 0, "both_reject": 0, "real_accepts_invariant_rejects": 0, "real_rejects_invariant_accepts": 0,
+          "src_model_differs": 0, "reject_reasons": {}}
+    if not exe or not mf:
+        return st
+    mo = ctx.model([c[3] for _, c in mf], exe=exe)
+    illformed, other = {}, []
+    for (i, c), r in zip(mf, mo):
+        real = outs[i].startswith("acc")
+        inv, src = "inv=acc" in r, "src=acc" in r
+        st["compared"] += 1
+        if not real:
+            k = outs[i][4:44]
+            st["reject_reasons"][k] = st["reject_reasons"].get(k, 0) + 1
+        if real and inv:
+            st["both_accept"] += 1
+        elif not real and not inv:
+            st["both_reject"] += 1
+        elif real and not inv:
+            st["real_accepts_invariant_rejects"] += 1
+            key = c[1].split("+")[0].split("=")[0].rstrip("0123456789+-")
+            if key not in illformed or len(c[2]) < len(illformed[key][1][2]):
+                illformed[key] = (i, c, outs[i])
+        else:
+            st["real_rejects_invariant_accepts"] += 1
+            other.append({"mutation": c[1], "input": c[2], "model": c[3], "impl": outs[i]})
+        if src != real:
+            st["src_model_differs"] += 1
+            if len(other) < 5:
+                other.append({"mutation": c[1], "input": c[2], "model": c[3], "impl": outs[i], "src_model": r})
+    for key in sorted(illformed)[:3]:
+        i, c, o = illformed[key]
+        ctx.violation("ill-formed-function-accepted:" + key, {"kind": "crash", "generator": "mfunc", "mutation": c[1], "input": c[2], "model_line": c[3], "implementation": o,
+                                                              "invariant": "rejects (acceptFunction with every check: header count = environments_length, indices >= -1)"},
+                      what="unmarshal accepts a function image that violates the well-formedness invariant (%s); %d such images" % (c[1], st["real_accepts_invariant_rejects"]))
+    if st["real_rejects_invariant_accepts"]:
+        broken.append("correspondence function model: implementation rejects %d images the model accepts, first %r" % (st["real_rejects_invariant_accepts"], other[0]))
+        ctx.broken.append(broken[-1])
+    if st["src_model_differs"] and not img_broken:
+        broken.append("correspondence: function acceptance predicted from Gen/ImageChecks differs from the implementation on %d images, first %r" % (st["src_model_differs"], other[0] if other else None))
+        ctx.broken.append(broken[-1])
+    return st
 
 
 # ------------------------------------------------------------------------------------------------ main
@@ -544,7 +614,7 @@ def run(ctx):
     model_out = {}
     if exe:
         brng = ctx.rng.fork("bytes-model")
-        keep = {"subst": 6, "fiber": 2, "mfiber": 3, "peg": 2, "real": 4} if quick else {"subst": 2}
+        keep = {"subst": 6, "fiber": 2, "mfiber": 3, "mfunc": 3, "peg": 2, "real": 4} if quick else {"subst": 2}
         for i, c in enumerate(cases):
             if not c[2].startswith("u "):
                 continue
@@ -558,7 +628,7 @@ def run(ctx):
         import threading
 
         def _run_model():
-            model_out["um"] = ctx.model(["umsites"] + [("ums " + cases[i][2][2:]).strip() for i in bpick], exe=exe)
+            model_out["um"] = ctx.model(["umdepths", "umsites"] + [("ums " + cases[i][2][2:]).strip() for i in bpick], exe=exe)
         model_thread = threading.Thread(target=_run_model)
         model_thread.start()
     lines = [c[2] for c in cases]
@@ -584,6 +654,18 @@ def run(ctx):
                 if o.startswith("acc") != predicted_accept:
                     broken.append("correspondence: witness %s is %s by the implementation, model (Gen/ImageChecks.%s=%s) predicts the opposite" % (
                         label, "accepted" if o.startswith("acc") else "rejected", WITNESS_CHECK[label], image_checks[WITNESS_CHECK[label]]))
+    # deep nesting: per recursive edge the largest accepted / smallest rejected depth seen (the byte-level model must agree: D4)
+    deep_stats = {}
+    for (kind, label, line, _m), o in zip(cases, outs):
+        if kind == "deep" and o is not None:
+            en, n = label.rsplit("*", 1)
+            d = deep_stats.setdefault(en, {"max_accepted": 0, "min_rejected": None, "n": 0, "max_depth": 0})
+            d["n"] += 1
+            d["max_depth"] = max(d["max_depth"], int(n))
+            if o.startswith("acc"):
+                d["max_accepted"] = max(d["max_accepted"], int(n))
+            elif d["min_rejected"] is None or int(n) < d["min_rejected"]:
+                d["min_rejected"] = int(n)
     rej_classes = {}
     for o in outs:
         if o and o.startswith("rej"):
@@ -631,6 +713,9 @@ def run(ctx):
             broken.append("correspondence: acceptance predicted from Gen/ImageChecks differs from the implementation on %d images" % mstats["src_model_differs"])
             ctx.broken.append(broken[-1])
     ctx.say("fiber model correspondence: %s" % json.dumps(mstats))
+    # (D2b) the same for the function-image model `acceptFunction` on the modelled function images
+    fstats = function_correspondence(ctx, exe, cases, outs, broken, img_broken)
+    ctx.say("function model correspondence: %s" % json.dumps(fstats))
     # (D3) PEG verifier model (with the rows extracted from the current peg.c) vs the real peg_unmarshal
     pg = [(i, c) for i, c in enumerate(cases) if c[0] in ("peg", "peg-row-witness") and c[3] is not None and outs[i] is not None]
     pstats = {"compared": 0, "both_accept": 0, "both_reject": 0, "differ": 0}
@@ -654,7 +739,13 @@ def run(ctx):
     # valid images, every truncation, substitutions, random bytes and the generated function / fiber / PEG images
     bstats = {"compared": 0, "acc": 0, "rej": 0, "differ": 0, "model_oob": 0, "model_fuel": 0, "by_generator": {}, "model_reject_classes": {}}
     bad_sites = []
+    bad_depths = []
     if exe and "um" in model_out:
+        rd = model_out["um"].pop(0)
+        bad_depths = rd[4:].split(";") if rd.startswith("bad") else []
+        for bp in bad_depths:
+            broken.append("unmarshal_terminates: the call path %s of marsh.c adds nothing to the recursion depth counter (flags passed on without + 1 "
+                          "between two MARSH_STACKCHECKs): nesting through it is not bounded by JANET_RECURSION_GUARD" % bp.replace("_", " "))
         r = model_out["um"][0]
         bad_sites = r.split()[1:] if r.startswith("bad") else []
         for bs in bad_sites:
@@ -787,7 +878,8 @@ def run(ctx):
                 "function/fiber is then called with 6 argument vectors / resumed, cancelled, stepped, iterated, printed, hashed, compared, re-marshalled and collected",
         "samples": [c[2][:80] for c in cases[:3]] + [c[2][:80] for c in cases[len(cases) // 2:len(cases) // 2 + 2]],
         "generators": stats, "accepted": acc_total, "reject_classes": dict(sorted(rej_classes.items(), key=lambda kv: -kv[1])[:25]),
-        "crash_signatures": {k: v[3] for k, v in by_sig.items()}, "fiber_model_correspondence": mstats, "peg_model_correspondence": pstats, "bytes_model_correspondence": bstats, "bad_read_sites": bad_sites,
+        "crash_signatures": {k: v[3] for k, v in by_sig.items()}, "fiber_model_correspondence": mstats, "function_model_correspondence": fstats, "peg_model_correspondence": pstats, "bytes_model_correspondence": bstats, "bad_read_sites": bad_sites, "uncounted_recursion_paths": bad_depths,
+        "deep_nesting": deep_stats,
         "peg_bad_rows": [pegrows.name_of.get(o, o) for o in peg_bad] if pegrows is not None else None,
         "resource_exits_not_counted": resource_exits,
         "abstract_types_with_unmarshal": [a[0] for a in abs_types],
@@ -814,8 +906,8 @@ def replay(ctx, path):
             sig = classify(crashes[-1][1], crashes[-1][2])
             print(crashes[-1][2][-2500:])
             ctx.violation("crash:" + sig, dict(r, stderr=crashes[-1][2][-3000:]), what="replayed: " + sig)
-        elif r.get("generator") == "mfiber" and outs[-1] and outs[-1].startswith("acc"):
-            ctx.violation(r.get("signature", "ill-formed-fiber-accepted"), r, what="replayed: ill-formed fiber image is still accepted")
+        elif r.get("generator") in ("mfiber", "mfunc") and outs[-1] and outs[-1].startswith("acc"):
+            ctx.violation(r.get("signature", "ill-formed-image-accepted"), r, what="replayed: ill-formed %s image is still accepted" % ("fiber" if r.get("generator") == "mfiber" else "function"))
         else:
             ctx.say("replay: input no longer crashes: %s" % outs[-1])
         return ctx.finish("proof", {"evaluations": len(lines), "distinct_nontrivial": len(lines), "rule": "replay", "samples": lines[-1:]})
